@@ -1,11 +1,957 @@
-//! C24 (not built yet)
-use crate::report::{Disagreement, Run};
-use serde_json::Value;
+//! C24 xlsx export then import preserves the workbook.
+//!
+//! For every workbook state of a stated finite set (built through the public `UserModel` API), the observation
+//! of `import(export(m))` after `evaluate` must equal the observation of `m`, minus what the format does not
+//! carry by design (workbook name = file-name argument; locale and timezone = import arguments) and minus what
+//! the property statement does not list (theme, named styles, sheet ids): those are not compared.
 
-pub fn run(run: &mut Run) {
-    run.machinery_errors.push("C24: check not built yet".into());
+use crate::hist::{self, HistCfg};
+use crate::obs::{self, Obs, ObsOpts};
+use crate::ops::Op;
+use crate::report::{Disagreement, Run};
+use crate::seeds;
+use ironcalc::import::load_from_xlsx_bytes;
+use ironcalc_base::expressions::parser::Node;
+use ironcalc_base::expressions::types::CellReferenceRC;
+use ironcalc_base::{Model, UserModel};
+use serde_json::{json, Value};
+use std::collections::{BTreeSet, HashMap};
+
+fn s(x: &str) -> String {
+    x.to_string()
 }
 
-pub fn replay(_case: &Value) -> Vec<Disagreement> {
-    vec![]
+/// Σ_x: XML-special, whitespace, control, escape-lookalike (`_x000D_`), multi-byte and astral characters.
+pub const SIGMA_X: [&str; 17] = [
+    "a", " ", "<", ">", "&", "\"", "'", "\n", "\t", "\r", "\u{1}", "_", "x", "0", "D", "\u{e9}", "\u{1f600}",
+];
+
+pub fn base_model(base: &str) -> UserModel<'static> {
+    if base == "blank" {
+        UserModel::new_empty("book", "en", "UTC", "en").expect("new_empty")
+    } else if let Some(f) = base.strip_prefix("feature:") {
+        crate::xfeat::feature_model(f)
+    } else {
+        seeds::load(hist::seed_name(base))
+    }
+}
+
+fn base_static(b: &str) -> &'static str {
+    for n in [
+        "blank",
+        "empty",
+        "basic",
+        "imported",
+        "feature:styles",
+        "feature:cf",
+        "feature:structure",
+    ] {
+        if n == b {
+            return n;
+        }
+    }
+    "blank"
+}
+
+pub struct Out {
+    pub ds: Vec<Disagreement>,
+    pub nontrivial: bool,
+    pub digest: u128,
+    pub unspecified: u64,
+}
+
+/// Keys the statement does not cover (or that are import arguments by design).
+fn unspecified(key: &str) -> bool {
+    key == "wb.name"
+        || key == "wb.locale"
+        || key == "wb.tz"
+        || key == "wb.theme"
+        || key.starts_with("wb.named_style[")
+}
+
+/// "name|sheet_id|state|color ; ..." -> without the sheet ids (the statement lists names, order, visibility, colours).
+fn strip_sheet_ids(v: &str) -> String {
+    v.split(" ; ")
+        .map(|p| {
+            let f: Vec<&str> = p.split('|').collect();
+            if f.len() >= 4 {
+                // the name may itself contain '|': id, state and colour are the last three fields
+                let n = f.len();
+                format!("{}|{}|{}", f[..n - 3].join("|"), f[n - 2], f[n - 1])
+            } else {
+                p.to_string()
+            }
+        })
+        .collect::<Vec<_>>()
+        .join(" ; ")
+}
+
+fn normalise(o: &mut Obs) -> u64 {
+    let keys: Vec<String> = o.keys().filter(|k| unspecified(k)).cloned().collect();
+    let n = keys.len() as u64;
+    for k in keys {
+        o.remove(&k);
+    }
+    if let Some(v) = o.get_mut("wb.sheets") {
+        *v = strip_sheet_ids(v);
+    }
+    n
+}
+
+/// Splits "fmt=.. font=.. fill=.. border=.. align=.. qp=.." into named parts.
+fn style_parts(t: &str) -> Vec<(String, String)> {
+    let names = ["fmt=", " font=", " fill=", " border=", " align=", " qp="];
+    let mut pos = vec![];
+    for n in names {
+        if let Some(i) = t.find(n) {
+            pos.push((i, n));
+        }
+    }
+    pos.sort();
+    let mut out = vec![];
+    for (k, (i, n)) in pos.iter().enumerate() {
+        let end = pos.get(k + 1).map(|p| p.0).unwrap_or(t.len());
+        out.push((n.trim().trim_end_matches('=').to_string(), t[i + n.len()..end].to_string()));
+    }
+    out
+}
+
+/// What kind of characters make a text delicate for the file format.
+fn text_class(t: &str) -> &'static str {
+    let b = t.as_bytes();
+    let has_x_escape = b.windows(7).any(|w| {
+        w[0] == b'_' && w[1] == b'x' && w[6] == b'_' && w[2..6].iter().all(|c| c.is_ascii_hexdigit())
+    });
+    if has_x_escape {
+        "x-escape-lookalike"
+    } else if t.chars().any(|c| (c as u32) < 0x20 && !matches!(c, '\n' | '\t' | '\r')) {
+        "control-char"
+    } else if t.contains('\r') {
+        "carriage-return"
+    } else if t.contains('\n') || t.contains('\t') {
+        "tab-or-newline"
+    } else if t.starts_with(' ') || t.ends_with(' ') || t.contains("  ") {
+        "edge-or-double-space"
+    } else if t.chars().any(|c| matches!(c, '<' | '>' | '&' | '"' | '\'')) {
+        "xml-special"
+    } else if !t.is_ascii() {
+        "non-ascii"
+    } else {
+        "plain"
+    }
+}
+
+/// Undoes the escapes of a Rust `{:?}` string (enough of them for the texts used here).
+fn undebug(t: &str) -> String {
+    let t = t.trim().trim_matches('"');
+    let mut out = String::new();
+    let mut it = t.chars().peekable();
+    while let Some(c) = it.next() {
+        if c != '\\' {
+            out.push(c);
+            continue;
+        }
+        match it.next() {
+            Some('t') => out.push('\t'),
+            Some('n') => out.push('\n'),
+            Some('r') => out.push('\r'),
+            Some('u') => {
+                let mut hex = String::new();
+                for h in it.by_ref() {
+                    if h == '}' {
+                        break;
+                    }
+                    if h != '{' {
+                        hex.push(h);
+                    }
+                }
+                if let Some(ch) = u32::from_str_radix(&hex, 16).ok().and_then(char::from_u32) {
+                    out.push(ch);
+                }
+            }
+            Some(o) => out.push(o),
+            None => {}
+        }
+    }
+    out
+}
+
+fn style_classes(prefix: &str, a: &str, b: &str) -> Vec<String> {
+    let pa = style_parts(a);
+    let pb = style_parts(b);
+    if pa.len() != pb.len() || pa.is_empty() {
+        return vec![format!("{}:style", prefix)];
+    }
+    let mut out = vec![];
+    for ((n, x), (_, y)) in pa.iter().zip(pb.iter()) {
+        if x != y {
+            out.push(match n.as_str() {
+                "fmt" => format!("{}:style:num_fmt text={}", prefix, text_class(&undebug(x).replace('"', ""))),
+                "align" => format!("{}:style:alignment", prefix),
+                "qp" => format!("{}:style:quote_prefix", prefix),
+                "border" => {
+                    // which border style is involved
+                    let st = ["Thin", "MediumDashDotDot", "MediumDashDot", "MediumDashed", "Medium", "Thick", "Double", "Dotted", "SlantDashDot"]
+                        .iter()
+                        .find(|k| x.contains(&format!("style: {},", k)))
+                        .copied()
+                        .unwrap_or("?");
+                    format!("{}:style:border style={}", prefix, st)
+                }
+                o => format!("{}:style:{}", prefix, o),
+            });
+        }
+    }
+    if out.is_empty() {
+        out.push(format!("{}:style", prefix));
+    }
+    out
+}
+
+fn kind_name(n: &Node) -> String {
+    match n {
+        Node::ParseErrorKind { .. } => "ParseError".into(),
+        Node::ErrorKind(_) => "Error".into(),
+        Node::NumberKind(_) => "Number".into(),
+        Node::StringKind(_) => "String".into(),
+        Node::BooleanKind(_) => "Boolean".into(),
+        Node::ReferenceKind { .. } => "Reference".into(),
+        Node::RangeKind { .. } => "Range".into(),
+        Node::FunctionKind { .. } => "Function".into(),
+        Node::OpSumKind { .. } => "Sum".into(),
+        Node::OpProductKind { .. } => "Product".into(),
+        Node::OpPowerKind { .. } => "Power".into(),
+        Node::OpConcatenateKind { .. } => "Concat".into(),
+        Node::OpRangeKind { .. } => "RangeOp".into(),
+        Node::CompareKind { .. } => "Compare".into(),
+        Node::UnaryKind { kind, .. } => format!("{:?}", kind),
+        Node::ArrayKind(_) => "Array".into(),
+        Node::DefinedNameKind(_) => "DefinedName".into(),
+        Node::ImplicitIntersection { .. } => "ImplicitIntersection".into(),
+        Node::SpillRangeOperator { .. } => "SpillRef".into(),
+        Node::LambdaCallKind { .. } | Node::LambdaDefKind { .. } => "Lambda".into(),
+        Node::NamedFunctionKind { .. } => "NamedFunction".into(),
+        Node::WrongReferenceKind { .. } | Node::WrongRangeKind { .. } => "WrongReference".into(),
+        _ => "Other".into(),
+    }
+}
+
+/// Top node kind with the kinds of its operands: `Percentage(Power)`, `Sum(Number,Concat)`.
+fn formula_shape(text: &str, sheets: &[String]) -> String {
+    let body = text.strip_prefix('=').unwrap_or(text);
+    let mut p = ironcalc_base::expressions::parser::new_parser_english(sheets.to_vec(), vec![], HashMap::new());
+    let ctx = CellReferenceRC {
+        sheet: sheets.first().cloned().unwrap_or_default(),
+        row: 1,
+        column: 1,
+    };
+    let n = p.parse(body, &ctx);
+    match &n {
+        Node::UnaryKind { right, .. } => format!("{}({})", kind_name(&n), kind_name(right)),
+        Node::OpSumKind { left, right, .. }
+        | Node::OpProductKind { left, right, .. }
+        | Node::OpPowerKind { left, right }
+        | Node::OpConcatenateKind { left, right }
+        | Node::OpRangeKind { left, right }
+        | Node::CompareKind { left, right, .. } => {
+            format!("{}({},{})", kind_name(&n), kind_name(left), kind_name(right))
+        }
+        Node::ImplicitIntersection { child, .. } | Node::SpillRangeOperator { child } => {
+            format!("{}({})", kind_name(&n), kind_name(child))
+        }
+        _ => kind_name(&n),
+    }
+}
+
+/// Replaces the positional `sN.cf[k]` entries by entries keyed by range and rule kind plus one order entry, so
+/// that one lost rule does not shift every other rule.
+fn rekey_cf(o: &mut Obs) {
+    let keys: Vec<String> = o.keys().filter(|k| obs::field_class(k) == "cf").cloned().collect();
+    let mut order: std::collections::BTreeMap<String, Vec<(usize, String)>> = Default::default();
+    for k in keys {
+        let v = o.remove(&k).unwrap_or_default();
+        let sheet = k.split('.').next().unwrap_or("").to_string();
+        let idx: usize = k
+            .rsplit('[')
+            .next()
+            .and_then(|t| t.trim_end_matches(']').parse().ok())
+            .unwrap_or(0);
+        let range = v
+            .strip_prefix("range=")
+            .and_then(|t| t.split(" prio_rank=").next())
+            .unwrap_or("")
+            .to_string();
+        let rest = v.find(" rule=").map(|i| v[i + 1..].to_string()).unwrap_or_default();
+        let kind: String = rest
+            .trim_start_matches("rule=")
+            .chars()
+            .take_while(|c| c.is_alphanumeric())
+            .collect();
+        let mut key = format!("{}.cfrule[{}|{}]", sheet, range, kind);
+        let mut n = 1;
+        while o.contains_key(&key) {
+            n += 1;
+            key = format!("{}.cfrule[{}|{}#{}]", sheet, range, kind, n);
+        }
+        order.entry(sheet).or_default().push((idx, format!("{}|{}", range, kind)));
+        o.insert(key, rest);
+    }
+    for (sheet, mut v) in order {
+        v.sort();
+        o.insert(
+            format!("{}.cforder", sheet),
+            v.into_iter().map(|x| x.1).collect::<Vec<_>>().join(" > "),
+        );
+    }
+}
+
+/// One narrow defect class per differing field (several fields of one cell give one class).
+pub fn classify(before: &Obs, df: &[(String, String, String)], inputs: &[(String, String)]) -> Vec<(String, String)> {
+    let sheets: Vec<String> = before
+        .get("wb.sheets")
+        .map(|v| {
+            v.split(" ; ")
+                .map(|p| p.rsplitn(3, '|').last().unwrap_or("").to_string())
+                .collect()
+        })
+        .unwrap_or_default();
+    let mut out: Vec<(String, String)> = vec![];
+    // cells: group the fields of one cell
+    let mut cells: std::collections::BTreeMap<String, Vec<&(String, String, String)>> = Default::default();
+    for d in df {
+        let fc = obs::field_class(&d.0);
+        if fc.starts_with("cell.") {
+            let cell = d.0.rsplitn(2, '.').nth(1).unwrap_or("").to_string();
+            cells.entry(cell).or_default().push(d);
+        }
+    }
+    for (cell, ds) in &cells {
+        let kind = before
+            .get(&format!("{}.kind", cell))
+            .cloned()
+            .unwrap_or_else(|| "absent".to_string());
+        let mut fields: Vec<&str> = vec![];
+        let mut fmt_changed = false;
+        for d in ds {
+            let f = d.0.rsplit('.').next().unwrap_or("");
+            if f == "style" {
+                for c in style_classes("cell", &d.1, &d.2) {
+                    fmt_changed |= c.contains(":style:num_fmt");
+                    out.push((c, d.0.clone()));
+                }
+            } else {
+                fields.push(f);
+            }
+        }
+        if fmt_changed {
+            // the formatted text follows the number format: one defect, already classified
+            fields.retain(|f| *f != "text");
+        }
+        if fields.is_empty() {
+            continue;
+        }
+        fields.sort();
+        let content = before.get(&format!("{}.content", cell)).cloned().unwrap_or_default();
+        let all_absent_after = ds.iter().all(|d| d.2 == "<absent>");
+        let all_absent_before = ds.iter().all(|d| d.1 == "<absent>");
+        let class = if all_absent_before {
+            "cell:extra-after-import".to_string()
+        } else if all_absent_after {
+            format!("cell:{}:lost", kind)
+        } else {
+            match kind.as_str() {
+                "formula" | "array" => {
+                    // the text the user typed for this cell if the case says so, else the printed content
+                    let typed = inputs.iter().rev().find(|(c, _)| c == cell).map(|(_, t)| t.clone());
+                    let shape = formula_shape(typed.as_deref().unwrap_or(&content), &sheets);
+                    let strs = if content.contains('"') {
+                        let lit: String = content.split('"').skip(1).step_by(2).collect::<Vec<_>>().join("");
+                        format!(" literal={}", text_class(&lit))
+                    } else {
+                        String::new()
+                    };
+                    format!("cell:{}[{}] shape={}{}", kind, fields.join("+"), shape, strs)
+                }
+                "string" => format!("cell:string[{}] text={}", fields.join("+"), text_class(&content)),
+                k => format!("cell:{}[{}]", k, fields.join("+")),
+            }
+        };
+        out.push((class, format!("{}.*", cell)));
+    }
+    for (k, a, b) in df {
+        let fc = obs::field_class(k);
+        if fc.starts_with("cell.") {
+            continue;
+        }
+        let shape = if a == "<absent>" {
+            "extra"
+        } else if b == "<absent>" {
+            "lost"
+        } else {
+            "changed"
+        };
+        let class = if fc == "row" || fc == "col" {
+            let idx = k.rsplit('[').next().unwrap_or("").trim_end_matches(']');
+            let sheet = k.split('.').next().unwrap_or("");
+            let has_cells = before.keys().any(|c| {
+                if fc == "row" {
+                    c.starts_with(&format!("{}.R{}C", sheet, idx))
+                } else {
+                    c.starts_with(&format!("{}.R", sheet)) && c.contains(&format!("C{}.", idx))
+                }
+            });
+            if shape != "changed" {
+                format!("{}:{}{}", fc, shape, if has_cells { "" } else { " (no cells in it)" })
+            } else {
+                let split = |t: &str| -> Vec<String> {
+                    let i = t.find(" hidden=").unwrap_or(t.len());
+                    let j = t.find(" style=").unwrap_or(t.len());
+                    vec![
+                        t[..i].to_string(),
+                        t.get(i..j).unwrap_or("").to_string(),
+                        t.get(j..).unwrap_or("").trim_start_matches(" style=").to_string(),
+                    ]
+                };
+                let (pa, pb) = (split(a), split(b));
+                let mut parts = vec![];
+                if pa[0] != pb[0] {
+                    parts.push(if fc == "row" { "height".to_string() } else { "width".to_string() });
+                }
+                if pa[1] != pb[1] {
+                    parts.push("hidden".to_string());
+                }
+                if pa[2] != pb[2] {
+                    parts.extend(style_classes("", &pa[2], &pb[2]).into_iter().map(|c| c.trim_start_matches(':').to_string()));
+                }
+                format!("{}:{}{}", fc, parts.join("+"), if has_cells { "" } else { " (no cells in it)" })
+            }
+        } else if fc == "wb.sheets" {
+            let fa: Vec<&str> = a.split(" ; ").collect();
+            let fb: Vec<&str> = b.split(" ; ").collect();
+            if fa.len() != fb.len() {
+                "sheets:count".to_string()
+            } else {
+                let mut parts = BTreeSet::new();
+                for (x, y) in fa.iter().zip(fb.iter()) {
+                    let px: Vec<&str> = x.rsplitn(3, '|').collect();
+                    let py: Vec<&str> = y.rsplitn(3, '|').collect();
+                    if px.len() == 3 && py.len() == 3 {
+                        if px[2] != py[2] {
+                            parts.insert(format!("name text={}", text_class(px[2])));
+                        }
+                        if px[1] != py[1] {
+                            parts.insert("state".to_string());
+                        }
+                        if px[0] != py[0] {
+                            parts.insert("color".to_string());
+                        }
+                    }
+                }
+                format!("sheets:{}", parts.into_iter().collect::<Vec<_>>().join("+"))
+            }
+        } else if fc == "cfrule" {
+            let kind = k
+                .rsplit('|')
+                .next()
+                .unwrap_or("")
+                .trim_end_matches(']')
+                .split('#')
+                .next()
+                .unwrap_or("")
+                .to_string();
+            if shape != "changed" {
+                format!("cf:{}:{}", kind, shape)
+            } else {
+                let rule = |t: &str| t.split(" dxf=").next().unwrap_or("").to_string();
+                let dxf = |t: &str| t.find(" dxf=").map(|i| t[i..].to_string()).unwrap_or_default();
+                let mut parts = vec![];
+                if rule(a) != rule(b) {
+                    // the one recorded shape: the formula of a Formula rule comes back with a leading '='
+                    if kind == "Formula" && rule(b) == rule(a).replacen("formula: \"", "formula: \"=", 1) {
+                        parts.push("rule(formula gains a leading =)");
+                    } else {
+                        parts.push("rule");
+                    }
+                }
+                if dxf(a) != dxf(b) {
+                    parts.push("dxf");
+                }
+                format!("cf:{}:{}", kind, parts.join("+"))
+            }
+        } else if fc == "cforder" {
+            "cf:order".to_string()
+        } else {
+            let c = match fc.as_str() {
+                "wb.defined_name" => "defined-name",
+                "frozen" => "frozen-panes",
+                "grid" => "grid-lines",
+                "link" | "links" => "link",
+                o => o,
+            };
+            format!("{}:{}", c, shape)
+        };
+        out.push((class, k.clone()));
+    }
+    out
+}
+
+/// The round trip itself: Ok(observation after import) or Err((stage, text)).
+fn round_trip(m: &Model, o: &ObsOpts) -> Result<Obs, (String, String)> {
+    let bytes = match crate::env::guarded(|| crate::xlsxutil::export_bytes(m)) {
+        Err(p) => return Err((format!("panic:export {}", crate::isolate::panic_sig(&p)), p)),
+        Ok(Err(e)) => return Err(("export-error".into(), e)),
+        Ok(Ok(b)) => b,
+    };
+    let locale = m.get_locale();
+    let tz = m.get_timezone();
+    let name = m.workbook.name.clone();
+    let wb = match crate::env::guarded(|| load_from_xlsx_bytes(&bytes, &name, &locale, &tz)) {
+        Err(p) => return Err((format!("panic:import {}", crate::isolate::panic_sig(&p)), p)),
+        Ok(Err(e)) => {
+            let t = format!("{:?}", e);
+            let class: String = t.chars().filter(|c| !c.is_ascii_digit()).take(40).collect();
+            return Err((format!("import-error {}", class.trim()), t));
+        }
+        Ok(Ok(wb)) => wb,
+    };
+    let lang = match m.get_language().as_str() {
+        "de" => "de",
+        "es" => "es",
+        "fr" => "fr",
+        "it" => "it",
+        _ => "en",
+    };
+    let mut m2 = match crate::env::guarded(|| Model::from_workbook(wb, lang)) {
+        Err(p) => return Err((format!("panic:from_workbook {}", crate::isolate::panic_sig(&p)), p)),
+        Ok(Err(e)) => return Err(("from_workbook-error".into(), e)),
+        Ok(Ok(m2)) => m2,
+    };
+    if let Err(p) = crate::env::guarded(|| m2.evaluate()) {
+        return Err((format!("panic:evaluate {}", crate::isolate::panic_sig(&p)), p));
+    }
+    Ok(obs::observe_model(&m2, o))
+}
+
+pub fn judge(base: &'static str, ops: &[Op]) -> Option<Out> {
+    let o = ObsOpts::default();
+    let mut um = base_model(base);
+    let case = json!({"seed": base, "ops": ops});
+    let before_ops = obs::digest(&obs::observe(&um, &o));
+    for op in ops {
+        match crate::env::guarded(|| op.apply(&mut um)) {
+            Ok(Ok(())) => {}
+            // a rejected or panicking operation is not this property's business: the state is not reachable this way
+            _ => return None,
+        }
+    }
+    um.evaluate();
+    let mut before = obs::observe(&um, &o);
+    let digest = obs::digest(&before);
+    let nontrivial = ops.is_empty() || digest != before_ops;
+    let mut ds = vec![];
+    let mut unspec = normalise(&mut before);
+    match round_trip(um.get_model(), &o) {
+        Err((sig, text)) => ds.push(Disagreement {
+            sig,
+            case: case.clone(),
+            detail: format!("the round trip failed: {}", text),
+        }),
+        Ok(mut after) => {
+            unspec += normalise(&mut after);
+            if before != after {
+                rekey_cf(&mut before);
+                rekey_cf(&mut after);
+                let df = obs::diff(&before, &after);
+                let inputs: Vec<(String, String)> = ops
+                    .iter()
+                    .filter_map(|op| match op {
+                        Op::Input(sh, r, c, t) => Some((format!("s{}.R{}C{}", sh, r, c), t.clone())),
+                        Op::ArrayFormula(sh, r, c, _, _, t) => Some((format!("s{}.R{}C{}", sh, r, c), t.clone())),
+                        _ => None,
+                    })
+                    .collect();
+                let classes = classify(&before, &df, &inputs);
+                let mut by_class: std::collections::BTreeMap<String, Vec<String>> = Default::default();
+                for (c, f) in classes {
+                    by_class.entry(c).or_default().push(f);
+                }
+                for (class, fields) in by_class {
+                    let sub: Vec<(String, String, String)> = df
+                        .iter()
+                        .filter(|d| {
+                            fields.iter().any(|f| match f.strip_suffix(".*") {
+                                Some(cell) => d.0.starts_with(&format!("{}.", cell)),
+                                None => &d.0 == f,
+                            })
+                        })
+                        .cloned()
+                        .collect();
+                    ds.push(Disagreement {
+                        sig: format!("diff {}", class),
+                        case: case.clone(),
+                        detail: format!(
+                            "after export and import the workbook differs (expected = before export, observed = after import):\n{}",
+                            obs::diff_text(&sub, 6)
+                        ),
+                    });
+                }
+            }
+        }
+    }
+    Some(Out {
+        ds,
+        nontrivial,
+        digest,
+        unspecified: unspec,
+    })
+}
+
+pub fn formula_corpus() -> Vec<String> {
+    let mut v: Vec<String> = vec![];
+    let ops = ["+", "-", "*", "/", "^", "&", "=", "<", ">", "<=", ">=", "<>"];
+    for a in ops {
+        for b in ops {
+            v.push(format!("4{}(3{}2)", a, b));
+            v.push(format!("(4{}3){}2", a, b));
+        }
+        v.push(format!("-(4{}3)", a));
+        v.push(format!("(4{}3)%", a));
+        v.push(format!("-4{}3", a));
+        v.push(format!("4{}-3", a));
+        v.push(format!("4%{}3", a));
+    }
+    for f in [
+        "A1+1",
+        "$A$1*A$2-$A3",
+        "SUM(A1:A3)",
+        "SUM(A:A)",
+        "SUM(1:1)",
+        "IF(A1>1,\"x\",\"y\")",
+        "Sheet2!A1",
+        "SUM(Sheet2!A1:A2)",
+        "nm*2",
+        "\"a\"\"b\"&\"c\"",
+        "\"<&>'\"",
+        "\" lead\"&\"trail \"",
+        "TRUE",
+        "#N/A",
+        "#REF!",
+        "1/0",
+        "NA()",
+        "{1,2;3,4}",
+        "SUM({1,2;3,4})",
+        "-A1^2",
+        "(-A1)^2",
+        "2^-1",
+        "--1",
+        "-+-1",
+        "1E+20",
+        "1.5E-7",
+        "0.1+0.2",
+        "LET(x,1,x+1)",
+        "LAMBDA(x,x+1)(2)",
+        "SEQUENCE(2,2)",
+        "E6#",
+        "SUM(E6#)",
+        "@A1:A3",
+        "A1:A3",
+        "A1:A3*2",
+        "TRANSPOSE(A1:A3)",
+        "INDEX(A1:B2,1,1):A3",
+        "IFERROR(1/0,)",
+        "SUM(A1,,A2)",
+        "TEXT(A2,\"0.00\")",
+        "CONCAT(\"x\",CHAR(10),\"y\")",
+        "UNICHAR(128512)",
+        "RAND()*0",
+        "NOW()*0",
+        "XLOOKUP(7,A1:A3,A1:A3)",
+        "FILTER(A1:A3,A1:A3>3)",
+        "SORT(A1:A2)",
+        "BYROW(A1:B2,LAMBDA(r,SUM(r)))",
+        "ISFORMULA(C1)",
+        "CELL(\"address\",A1)",
+        "10%",
+        "10%%",
+        "A1%",
+        "1=1",
+        "\"a\"=\"A\"",
+        "(A1,A2)",
+        "SUM((A1,A2))",
+        "A1:A2 A2:A3",
+    ] {
+        v.push(f.to_string());
+    }
+    v
+}
+
+pub fn sheet_names() -> Vec<&'static str> {
+    vec![
+        "A B", "It's", "a&b", "a<b", "x>y", "\u{e9}t\u{e9}", "\u{1f600}", "1", "A1", "R1C1", "TRUE", "a\"b", "a,b",
+        "a;b", "a!b", "a.b", "#x", "a+b", "(a)", "{a}", "a=b", "x_x000D_y", " lead", "trail ", "1234567890123456789012345678901",
+    ]
+}
+
+fn style_attrs() -> Vec<(&'static str, &'static str)> {
+    let mut v = vec![
+        ("font.b", "true"),
+        ("font.i", "true"),
+        ("font.u", "true"),
+        ("font.strike", "true"),
+        ("font.color", "#FF00FF"),
+        ("font.size", "17"),
+        ("fill.color", "#00FFAA"),
+        ("alignment.wrap_text", "true"),
+    ];
+    for f in [
+        "0.00",
+        "#,##0",
+        "0%",
+        "0.00E+00",
+        "yyyy-mm-dd",
+        "h:mm:ss AM/PM",
+        "\"x<&>\"0",
+        "[Red]0;[Blue]-0",
+        "@",
+        "# ?/?",
+        "$#,##0.00",
+        "0.0 \"a\"\"b\"",
+    ] {
+        v.push(("num_fmt", f));
+    }
+    for h in ["center", "centerContinuous", "distributed", "fill", "general", "justify", "left", "right"] {
+        v.push(("alignment.horizontal", h));
+    }
+    for a in ["bottom", "center", "distributed", "justify", "top"] {
+        v.push(("alignment.vertical", a));
+    }
+    v
+}
+
+/// (base, ops) cases other than the history words.
+pub fn fixed_cases(thorough: bool) -> Vec<(&'static str, Vec<Op>)> {
+    use Op::*;
+    let mut v: Vec<(&'static str, Vec<Op>)> = vec![];
+    for b in ["blank", "empty", "basic", "imported", "feature:styles", "feature:cf", "feature:structure"] {
+        v.push((b, vec![]));
+    }
+    // (b) texts
+    let max = if thorough { 3 } else { 2 };
+    let a = SIGMA_X.len();
+    let mut total = 0usize;
+    let mut block = 1usize;
+    for _ in 0..=max {
+        total += block;
+        block *= a;
+    }
+    for k in 1..total {
+        // k-th string in length-then-lexicographic order
+        let mut kk = k;
+        let mut len = 0;
+        let mut blk = 1usize;
+        loop {
+            if kk < blk {
+                break;
+            }
+            kk -= blk;
+            blk *= a;
+            len += 1;
+        }
+        let mut idx = vec![0usize; len];
+        for i in (0..len).rev() {
+            idx[i] = kk % a;
+            kk /= a;
+        }
+        let t: String = idx.iter().map(|i| SIGMA_X[*i]).collect();
+        v.push(("blank", vec![Input(0, 1, 1, t.clone())]));
+        // as a quote-prefixed text, so that number-like and formula-like strings stay strings
+        v.push(("blank", vec![Input(0, 1, 1, format!("'{}", t))]));
+        if len <= 2 {
+            v.push(("blank", vec![Input(0, 1, 1, format!("=\"{}\"", t.replace('"', "\"\"")))]));
+            v.push(("blank", vec![RenameSheet(0, t.clone())]));
+            v.push(("blank", vec![Input(0, 1, 1, s("1")), Style(0, 1, 1, 1, 1, s("num_fmt"), format!("0\"{}\"", t.replace('"', "")))]));
+        }
+    }
+    // (c) formulas on the basic seed (A1..A3, B1, B2 hold values; E6# is a spill; nm a name), in a free cell
+    for f in formula_corpus() {
+        v.push(("basic", vec![Input(0, 9, 2, format!("={}", f))]));
+    }
+    for f in ["A1:A2*2", "SUM(A1:A3)", "{1,2}", "A1:B1&\"x\""] {
+        v.push(("basic", vec![ArrayFormula(0, 9, 2, 2, 1, format!("={}", f))]));
+        v.push(("basic", vec![ArrayFormula(0, 9, 2, 1, 2, format!("={}", f))]));
+    }
+    // (d) styles: every attribute value on a cell, a row, a column; pairs on a cell (thorough)
+    let attrs = style_attrs();
+    let scopes: [(i32, i32, i32, i32); 3] = [(2, 2, 1, 1), (3, 1, 1, 16_384), (1, 3, 1_048_576, 1)];
+    for (p, val) in &attrs {
+        for (r, c, h, w) in scopes {
+            v.push(("blank", vec![Input(0, 2, 2, s("1.5")), Style(0, r, c, h, w, s(p), s(val))]));
+        }
+    }
+    if thorough {
+        for (i, (p1, v1)) in attrs.iter().enumerate() {
+            for (p2, v2) in attrs.iter().skip(i + 1) {
+                if p1 == p2 {
+                    continue;
+                }
+                v.push((
+                    "blank",
+                    vec![
+                        Input(0, 2, 2, s("1.5")),
+                        Style(0, 2, 2, 1, 1, s(p1), s(v1)),
+                        Style(0, 2, 2, 1, 1, s(p2), s(v2)),
+                    ],
+                ));
+            }
+        }
+    }
+    for ty in ["All", "Inner", "Outer", "Top", "Right", "Bottom", "Left", "CenterH", "CenterV"] {
+        for st in [
+            "thin",
+            "medium",
+            "thick",
+            "double",
+            "dotted",
+            "slantdashdot",
+            "mediumdashed",
+            "mediumdashdotdot",
+            "mediumdashdot",
+        ] {
+            if !thorough && ty != "All" && st != "thin" {
+                continue;
+            }
+            v.push(("blank", vec![Border(0, 2, 2, 2, 2, s(ty), s(st), s("#112233"))]));
+        }
+    }
+    v.push(("blank", vec![Border(0, 2, 2, 2, 2, s("All"), s("thin"), s(""))]));
+    // sheet names (also with a formula pointing at the renamed sheet)
+    for n in sheet_names() {
+        v.push(("empty", vec![RenameSheet(1, s(n)), Input(1, 1, 1, s("5")), Input(0, 1, 1, s("=1"))]));
+        v.push(("basic", vec![RenameSheet(1, s(n))]));
+    }
+    // structure: states, colours, panes, sizes
+    v.push(("empty", vec![HideSheet(1)]));
+    v.push(("empty", vec![SheetColor(0, s("#FF0000")), SheetColor(1, s("#00FF00"))]));
+    for n in [0, 1, 5] {
+        v.push(("blank", vec![FrozenRows(0, n), FrozenCols(0, 5 - n)]));
+    }
+    for h in [1.0, 14.5, 21.0, 40.25, 400.0] {
+        v.push(("blank", vec![RowsHeight(0, 2, 3, h), ColsWidth(0, 2, 3, h * 3.0)]));
+    }
+    v.push(("blank", vec![RowsHidden(0, 2, 2, true), ColsHidden(0, 3, 4, true)]));
+    v.push(("blank", vec![ColsWidth(0, 1, 16_384, 50.0)]));
+    v.push(("blank", vec![GridLines(0, false)]));
+    // names and links
+    v.push(("empty", vec![NewName(s("g"), None, s("Sheet1!$A$1")), NewName(s("g"), Some(1), s("Sheet2!$B$2:$C$3"))]));
+    v.push(("empty", vec![NewName(s("k"), None, s("SUM(Sheet1!$A$1:$A$3)*2"))]));
+    v.push(("blank", vec![SetLink(0, 1, 1, s("https://example.com/?a=1&b=<2>"), Some(s("l<&>")))]));
+    v.push(("empty", vec![SetInternalLink(0, 2, 2, s("Sheet2!A1"), None)]));
+    v
+}
+
+pub fn run(run: &mut Run) {
+    // export / import allocate and free tens of megabytes per case: keep the pages (one arena per lane)
+    crate::isolate::tune_malloc(crate::env::workers() as i32);
+    let thorough = run.tier.thorough();
+    let mut outcomes = std::collections::HashSet::new();
+    let mut unspec = 0u64;
+    let mut bounds = vec![];
+    // (a) history words
+    let full = seeds::alphabet_full();
+    let depth = if thorough { 2 } else { 1 };
+    let core = full.clone();
+    for len in 2..=depth {
+        let cfg = HistCfg {
+            seeds: seeds::SEEDS.to_vec(),
+            alphabet: core.clone(),
+            depth: len,
+        };
+        let (outs, st, errs) = hist::explore(&cfg, len, &|seed, word| judge(base_static(seed), word));
+        for e in errs {
+            run.machinery_errors.push(e);
+        }
+        run.evaluations += st.words;
+        run.traces += st.words;
+        run.transitions += st.steps + 4 * st.words;
+        for w in outs {
+            if w.nontrivial {
+                run.nontrivial += 1;
+            }
+            run.states += 1;
+            outcomes.insert(w.digest);
+            unspec += w.unspecified;
+            run.add_all(w.ds);
+        }
+        bounds.push(json!({"family": "history words (full alphabet)", "length": len, "alphabet_size": core.len(), "seeds": seeds::SEEDS,
+            "words_ok": st.words, "words_cut_at_first_error": st.words_cut}));
+    }
+    bounds.push(json!({"family": "history words (full alphabet)", "length": 1, "alphabet_size": full.len(), "seeds": seeds::SEEDS}));
+    // (b)-(d) fixed cases
+    let mut cases = fixed_cases(thorough);
+    // words of length 1 (every operation of the full alphabet from every seed) run with the fixed cases, in chunks
+    for seed in seeds::SEEDS {
+        for op in &full {
+            cases.push((seed, vec![op.clone()]));
+        }
+    }
+    let chunk = 8;
+    let n_units = cases.len().div_ceil(chunk);
+    let res = crate::env::par_units(n_units, |u| {
+        let mut v = vec![];
+        for (b, ops) in cases.iter().skip(u * chunk).take(chunk) {
+            v.push(judge(b, ops));
+        }
+        v
+    });
+    let mut cut = 0u64;
+    for r in res {
+        match r {
+            Ok(v) => {
+                for w in v {
+                    match w {
+                        Some(w) => {
+                            run.evaluations += 1;
+                            run.traces += 1;
+                            run.transitions += 5;
+                            run.states += 1;
+                            if w.nontrivial {
+                                run.nontrivial += 1;
+                            }
+                            outcomes.insert(w.digest);
+                            unspec += w.unspecified;
+                            run.add_all(w.ds);
+                        }
+                        None => cut += 1,
+                    }
+                }
+            }
+            Err(e) => run.machinery_errors.push(format!("unit panicked: {}", e)),
+        }
+    }
+    bounds.push(json!({"family": "texts over the XML-tricky alphabet (cell text, quote-prefixed text, formula literal, sheet name, format literal), formula corpus, CSE arrays, style attributes on cell/row/column, borders, sheet names, structure, names, links, feature workbooks",
+        "text_alphabet": SIGMA_X.to_vec(), "text_length": if thorough { 3 } else { 2 }, "formulas": formula_corpus().len(),
+        "cases": cases.len(), "cases_rejected_by_the_api": cut}));
+    run.distinct_outcomes = outcomes.len() as u64;
+    run.bound = json!({"families": bounds, "hash_seed": crate::env::hash_seed()});
+    run.extra.insert("fields_not_compared_unspecified".into(), json!(unspec));
+    run.rule = "each workbook state (seed or feature workbook plus a word of API operations, all Ok) is evaluated, observed, exported with save_xlsx_to_writer, imported with load_from_xlsx_bytes (same locale / timezone / name arguments), rebuilt with Model::from_workbook, evaluated and observed again; the two observations must be equal field by field. non-trivial = the operations changed the observation of the seed (or the case is a seed itself)".into();
+    run.sample(json!({"seed": "basic", "ops": [full[0].clone()]}));
+    if let Some((b, ops)) = cases.get(cases.len() / 2) {
+        run.sample(json!({"seed": b, "ops": ops}));
+    }
+    if let Some((b, ops)) = cases.last() {
+        run.sample(json!({"seed": b, "ops": ops}));
+    }
+    run.assume("not compared (unspecified by the statement or import arguments by design): workbook name, locale, timezone, theme, named styles, sheet ids");
+    run.assume("observation window: rows/columns 1..7 plus every stored cell, link, row and column descriptor");
+    run.assume("workbooks outside the listed families (longer histories, other strings, other formulas) are not covered");
+}
+
+pub fn replay(case: &Value) -> Vec<Disagreement> {
+    let seed = case["seed"].as_str().unwrap_or("blank");
+    let ops: Vec<Op> = match serde_json::from_value(case["ops"].clone()) {
+        Ok(o) => o,
+        Err(_) => return vec![],
+    };
+    judge(base_static(seed), &ops).map(|w| w.ds).unwrap_or_default()
 }
